@@ -1,8 +1,9 @@
 #!/usr/bin/env python3
 """Print the prompt handed to a fresh sub-agent that is asked to seed a property-breaking change.
-usage: agent_prompt.py <property id> <worktree>"""
+usage: agent_prompt.py <property id> <worktree> [label1 label2]"""
 import json, sys
 pid, wt = sys.argv[1], sys.argv[2]
+A, B = (sys.argv[3], sys.argv[4]) if len(sys.argv) > 4 else ('a', 'b')
 p = next(json.loads(l) for l in open('/verif/properties.jsonl') if json.loads(l)['id'] == pid)
 print(f"""You are helping to evaluate a verification effort for the C event-loop library ivykis (buytenh/ivykis).
 You have your own scratch git worktree of the library at {wt} (already configured and built in-tree with autotools:
@@ -15,7 +16,7 @@ Here is a semantic property that the library is supposed to guarantee:
   Statement: {p['statement']}
   Quantified over: {p['quantifier']['text']}
 
-Your job: produce TWO independent, realistic source changes (call them "a" and "b") to the library sources under
+Your job: produce TWO independent, realistic source changes (call them "{A}" and "{B}") to the library sources under
 {wt}/src that each BREAK this property, while the library still compiles without new warnings and `make check` still
 passes (all 11 tests). Each change should look like a plausible maintainer mistake or a plausible "optimisation /
 refactoring gone wrong" (a dropped re-check, a wrong comparison, a lock taken too late, a stale flag, a missing
@@ -26,7 +27,7 @@ particular readiness pattern, or two cooperating sites that each look fine alone
 at once (every program using the feature fails immediately) is not wanted. The two changes should use different
 mechanisms / different code sites.
 
-For each change X in (a, b) deliver, in the directory {wt}/_mutants/X/ :
+For each change X in ({A}, {B}) deliver, in the directory {wt}/_mutants/X/ :
   - patch.diff : `git diff` of the library change only (relative to the worktree HEAD; must apply with `git apply` at the repo root)
   - demo.c (or demo.sh + sources): a small self-contained demonstration program using the public API (or, if really needed,
     including private headers from src/) that FAILS (non-zero exit, crash, hang detected by its own alarm(), or sanitizer report)
